@@ -7,6 +7,19 @@ Exit 0 iff every applicable mutant was caught. Mutants whose patch no longer app
 import sys,os,subprocess,tempfile,re,shutil,glob,json
 from concurrent.futures import ThreadPoolExecutor
 ROOT='/verif'; REPO=os.environ.get('VERIF_REPO','/repo')
+_base={}
+import threading
+_lock=threading.Lock()
+def baseline(prop):
+    """violations (rule, construct) already reported on the unchanged tree (known findings under triage): a mutant only counts as
+    caught if it produces a violation that is not in this set."""
+    with _lock:
+        if prop not in _base:
+            env=dict(os.environ,PATH='/opt/veriftools/go1.26.8/bin:'+os.environ['PATH'],GOFLAGS='-mod=mod',GOPROXY='off',GOSUMDB='off',GOTOOLCHAIN='local')
+            env.pop('GOWORK',None)
+            p=subprocess.run([f'{ROOT}/bin/sgcheck','-repo',REPO,'-property',prop,'-tier','quick','-no-evidence','-verif',ROOT],capture_output=True,text=True,env=env)
+            _base[prop]=set(re.findall(r'rule (\S+) violated at \S+ (.*)',p.stdout))
+        return _base[prop]
 def run_mutant(path):
     prop=os.path.basename(os.path.dirname(path))
     txt=open(path).read()
@@ -36,8 +49,10 @@ def run_mutant(path):
         out=p.stdout+p.stderr
         if 'type/load errors' in out:
             return (path,'does-not-compile',out[-600:])
-        fired=set(re.findall(r'rule (\S+) violated',out))
-        if p.returncode==1 and (not expect or fired&set(expect)):
+        allv=set(re.findall(r'rule (\S+) violated at \S+ (.*)',out))
+        new=allv-baseline(prop)
+        fired={r for r,_ in new}
+        if fired and (not expect or fired&set(expect)):
             return (path,'caught',' '.join(sorted(fired)))
         return (path,'MISSED',f'exit={p.returncode} fired={sorted(fired)} expected={expect}\n'+out[-400:])
     finally:
